@@ -29,6 +29,12 @@ DETECTORS = {
     "unprotected-deletable": all_detectors.AnyoneCanDelete,
     "group-size-check": all_detectors.MissingGroupSize,
 }
+# instruction-reporting (optimisation) detectors: used where "every detector" matters (C14)
+OTHER_DETECTORS = {
+    "constant-gtxn": all_detectors.ConstantGtxn,
+    "sender-access": all_detectors.SenderAccess,
+    "self-access": all_detectors.SelfAccess,
+}
 
 
 class Captured:  # pylint: disable=too-few-public-methods
@@ -83,7 +89,7 @@ def run_detector(tealer: Any, det_name: str) -> List[List[Any]]:
 
 
 def run_detector_outputs(tealer: Any, det_name: str) -> List[Any]:
-    det = DETECTORS[det_name](tealer)
+    det = (DETECTORS.get(det_name) or OTHER_DETECTORS[det_name])(tealer)
     with capture():
         return list(det.detect())
 
